@@ -58,10 +58,12 @@ impl LocalPeerService {
 }
 
 //@ extract src/synchronisation/peer_inbound_service.rs :: impl LocalPeerService / fn process_local_event as LocalPeerService::lifted_room_definition_changed
-//@ lift "LocalEvent::RoomDefinitionChanged(room) =>" :: async fn lifted_room_definition_changed(room: Arc<Room>, remote_key: &Mutex<Vec<u8>>, event_sender: &Sender<RemoteEvent>, inbound_query_service: &InboundQueryService) -> std::result::Result<(), crate_error::Error> tail "Ok(())"
+//@ lift "LocalEvent::RoomDefinitionChanged(room) =>" :: async fn lifted_room_definition_changed(room: Arc<Room>, remote_key: &Mutex<Vec<u8>>, event_sender: &Sender<RemoteEvent>, remote_rooms: &HashSet<Uid>, inbound_query_service: &InboundQueryService) -> std::result::Result<(), crate_error::Error> tail "Ok(())"
 //@ rewrite E3 "crate::Error" => "crate_error::Error" x*
 //@ rewrite E6 "\|_\|" => "|_e|" x*
 //@ insert before-stmt "inbound_query_service.add_allowed_room(room.id)"
+                    // [allow_room_only_for_a_key_listed_in_it] a room is (re-)authorised for the connection only if the authenticated key is listed in its definition - never on the say-so of the remote side (the rooms it announced)
+                    assert(spec_ever_listed(*room, *key));
                     // [allow_room_only_for_current_member] a room is (re-)authorised for the connection only if the authenticated key is a member of it now
                     assert(exists|d: i64| spec_room_member(*room, *key, d));
 //@ end
